@@ -143,6 +143,13 @@ def discharge(obl, timeout_ms=None, rlimit=None, use_cvc5=True):
         obl.time = 0.0
         return obl
     base = list(obl.hyps) + select_facts(obl)
+    if _has_quantifier(base + [g]):
+        # quantified (loop-invariant) VC: deterministic index-set instantiation first
+        r0, why0 = check_by_instantiation(base + [z3.Not(g)], timeout_ms=timeout_ms or Z3_TIMEOUT_MS)
+        if r0 == "unsat":
+            obl.time = time.time() - t0
+            obl.verdict, obl.backend = "discharged", "instantiate+z3"
+            return obl
     r, be, m, why = check_sat(base + [z3.Not(g)], timeout_ms, rlimit, use_cvc5)
     obl.time = time.time() - t0
     obl.backend = be
@@ -163,3 +170,115 @@ def vacuity(hyps, timeout_ms=5000):
     Returns 'sat', 'unsat' or 'unknown'."""
     r, _be, _m, _why = check_sat(list(hyps), timeout_ms, None, use_cvc5=False, nlsat=False)
     return r
+
+
+# ---------------------------------------------------------------------------
+# the `instantiate` tactic: quantified loop-invariant VCs without the solver's
+# own (run-to-run unstable) quantifier heuristics.  hyps /\ not goal is brought
+# to negation normal form (existentials skolemised by z3's `nnf` tactic); every
+# universally quantified index variable is then instantiated with every ground
+# index term of the formula (the index set of the array-property fragment,
+# Bradley-Manna-Sipma), for a fixed number of rounds; the quantified formulas
+# are dropped.  Sound: instances only weaken the hypotheses, so `unsat` of the
+# quantifier-free result implies `unsat` of the original.
+def _index_terms(es, limit=40):
+    seen, out = set(), {}
+    stack = list(es)
+    while stack:
+        e = stack.pop()
+        if e.get_id() in seen:
+            continue
+        seen.add(e.get_id())
+        if z3.is_quantifier(e):
+            stack.append(e.body())
+            continue
+        if not z3.is_app(e):
+            continue
+        ch = e.children()
+        k = e.decl().kind()
+        cands = []
+        if k in (z3.Z3_OP_SELECT, z3.Z3_OP_STORE) and len(ch) >= 2:
+            cands.append(ch[1])
+        elif k == z3.Z3_OP_UNINTERPRETED and ch:
+            cands += [c for c in ch if z3.is_int(c)]
+        elif k in (z3.Z3_OP_LE, z3.Z3_OP_LT, z3.Z3_OP_GE, z3.Z3_OP_GT, z3.Z3_OP_EQ) and len(ch) == 2 and z3.is_int(ch[0]):
+            cands += [c for c in ch if z3.is_const(c) or z3.is_int_value(c)]
+        for c in cands:
+            if z3.is_int(c) and not _has_var(c):
+                out[c.get_id()] = c
+        stack.extend(ch)
+    terms = list(out.values())
+    terms.sort(key=lambda t: (len(t.sexpr()), t.sexpr()))
+    return terms[:limit]
+
+
+def _has_var(e):
+    stack = [e]
+    seen = set()
+    while stack:
+        x = stack.pop()
+        if x.get_id() in seen:
+            continue
+        seen.add(x.get_id())
+        if z3.is_var(x):
+            return True
+        if z3.is_quantifier(x):
+            return True
+        stack.extend(x.children())
+    return False
+
+
+def _instantiate(e, index, budget):
+    if z3.is_quantifier(e):
+        if not e.is_forall():
+            return e
+        n = e.num_vars()
+        if any(e.var_sort(i) != z3.IntSort() for i in range(n)):
+            return e
+        import itertools
+        insts = []
+        for vals in itertools.product(index, repeat=n):
+            if budget[0] <= 0:
+                break
+            budget[0] -= 1
+            # de Bruijn: variable 0 is the innermost (last) bound variable
+            body = z3.substitute_vars(e.body(), *reversed(vals))
+            insts.append(_instantiate(body, index, budget))
+        return z3.And(insts) if insts else z3.BoolVal(True)
+    if not z3.is_app(e) or not z3.is_bool(e):
+        return e
+    k = e.decl().kind()
+    if k in (z3.Z3_OP_AND, z3.Z3_OP_OR):
+        ch = [_instantiate(c, index, budget) for c in e.children()]
+        return z3.And(ch) if k == z3.Z3_OP_AND else z3.Or(ch)
+    return e
+
+
+def check_by_instantiation(assertions, rounds=2, timeout_ms=20000, max_instances=60000):
+    g = z3.Goal()
+    for a in assertions:
+        g.add(a)
+    try:
+        nnf = z3.Tactic("nnf")(g)
+    except z3.Z3Exception:
+        return "unknown", "nnf failed"
+    forms = [f for sub in nnf for f in sub]
+    ground = forms
+    for _ in range(rounds):
+        index = _index_terms(ground)
+        if not index:
+            break
+        budget = [max_instances]
+        ground = [z3.simplify(_instantiate(f, index, budget)) for f in forms]
+        if budget[0] <= 0:
+            break
+    # drop whatever quantifier is left (non-Int binders)
+    ground = [f for f in ground if not _has_quantifier([f])]
+    s = z3.Solver()
+    s.set("timeout", timeout_ms)
+    for f in ground:
+        s.add(f)
+    r = s.check()
+    if r == z3.unsat:
+        return "unsat", ""
+    return "unknown", f"instantiated formula {r}"
